@@ -4,6 +4,7 @@ import (
 	"context"
 	"fmt"
 	"io"
+	"regexp"
 	"sort"
 	"strings"
 	"sync"
@@ -754,7 +755,12 @@ func (e *rwEng) Exec(t *testing.T, c Case) []string {
 
 						if a["sel"] != "" {
 							k, v, _ := strings.Cut(a["sel"], ":")
-							opts = append(opts, state.WatchWithLabelQuery(resource.LabelEqual(k, v)))
+
+							if k == "@id" { // an ID query: ids starting with v
+								opts = append(opts, state.WatchWithIDQuery(resource.IDRegexpMatch(regexp.MustCompile("^"+regexp.QuoteMeta(v)))))
+							} else {
+								opts = append(opts, state.WatchWithLabelQuery(resource.LabelEqual(k, v)))
+							}
 						}
 
 						if a["kind"] == "agg" {
@@ -1260,7 +1266,7 @@ func (e *rwEng) Gen(r *Rand, thorough bool, idx int) Case {
 				}
 
 				if r.Chance(1, 3) {
-					op += " sel=k1:v1"
+					op += " sel=" + Pick(r, []string{"k1:v1", "k1:v1", "@id:a"})
 				}
 			}
 
